@@ -1,17 +1,142 @@
 package main
 
 import (
+	"flag"
 	"fmt"
-	"golang.org/x/tools/go/packages"
+	"os"
+	"regexp"
+	"sort"
+	"strings"
+	"sync"
+
 	"golang.org/x/tools/go/ssa"
-	"golang.org/x/tools/go/ssa/ssautil"
 )
 
 func main() {
-	cfg := &packages.Config{Mode: packages.LoadAllSyntax, Dir: "/repo", BuildFlags: []string{"-tags=purego,verif"}}
-	pkgs, err := packages.Load(cfg, "./hpke")
-	if err != nil { panic(err) }
-	prog, _ := ssautil.AllPackages(pkgs, ssa.InstantiateGenerics|ssa.GlobalDebug)
-	prog.Build()
-	fmt.Println(len(pkgs), len(prog.AllPackages()))
+	if len(os.Args) < 2 {
+		fmt.Fprintln(os.Stderr, "usage: govc <vc|check|replay|sweep> ...")
+		os.Exit(2)
+	}
+	switch os.Args[1] {
+	case "vc":
+		cmdVC(os.Args[2:])
+	case "check":
+		os.Exit(cmdCheck(os.Args[2:]))
+	case "replay":
+		os.Exit(cmdReplay(os.Args[2:]))
+	default:
+		fmt.Fprintln(os.Stderr, "unknown command", os.Args[1])
+		os.Exit(2)
+	}
+}
+
+// selectFuncs returns functions of the loaded program whose key matches the regexp.
+func (e *Engine) selectFuncs(re *regexp.Regexp) []*ssa.Function {
+	var out []*ssa.Function
+	for f := range e.allFuncs {
+		if f.Pkg == nil && f.Origin() == nil {
+			continue
+		}
+		if f.Synthetic != "" && f.Origin() == nil {
+			continue
+		}
+		k := e.fnKey(f)
+		if re.MatchString(k) {
+			out = append(out, f)
+		}
+	}
+	sort.Slice(out, func(i, j int) bool { return out[i].String() < out[j].String() })
+	return out
+}
+
+func cmdVC(args []string) {
+	fs := flag.NewFlagSet("vc", flag.ExitOnError)
+	config := fs.String("config", "G", "load configuration")
+	pkgs := fs.String("pkgs", "./...", "package patterns (comma separated)")
+	fnre := fs.String("fn", "", "regexp over function keys")
+	timeout := fs.Int("timeout", 20000, "per-query timeout ms")
+	work := fs.String("work", "/verif/.work/dev", "work dir")
+	verbose := fs.Bool("v", false, "verbose")
+	extra := fs.String("contracts", "/verif/contracts", "directory with extra contract files (*.contracts)")
+	fs.Parse(args)
+	e, err := newEngine("/repo", *config, strings.Split(*pkgs, ","))
+	if err != nil {
+		fmt.Fprintln(os.Stderr, err)
+		os.Exit(2)
+	}
+	if err := e.loadAllContracts(*extra); err != nil {
+		fmt.Fprintln(os.Stderr, err)
+		os.Exit(2)
+	}
+	re := regexp.MustCompile(*fnre)
+	fns := e.selectFuncs(re)
+	cfg := SolverCfg{WorkDir: *work, TimeoutMS: *timeout}
+	results := e.verifyAll(fns, cfg, 12)
+	bad := 0
+	for _, r := range results {
+		printResult(r, *verbose)
+		for _, o := range r.Obs {
+			if o.Status != "unsat" && o.Status != "folded" {
+				bad++
+			}
+		}
+		if r.GenError != "" {
+			bad++
+		}
+	}
+	fmt.Printf("functions=%d failing-obligations=%d\n", len(results), bad)
+}
+
+func (e *Engine) verifyAll(fns []*ssa.Function, cfg SolverCfg, par int) []*FuncResult {
+	results := make([]*FuncResult, len(fns))
+	// frame inference and global scans are not thread-safe: precompute
+	e.scanGlobals()
+	for _, f := range fns {
+		e.frameOf(f)
+	}
+	sem := make(chan struct{}, par)
+	var wg sync.WaitGroup
+	// generation touches shared engine maps (frames, ids): serialise generation, parallelise solving
+	for i, f := range fns {
+		wg.Add(1)
+		sem <- struct{}{}
+		go func(i int, f *ssa.Function) {
+			defer wg.Done()
+			defer func() { <-sem }()
+			results[i] = e.verifyFunc(f, cfg)
+		}(i, f)
+	}
+	wg.Wait()
+	return results
+}
+
+func printResult(r *FuncResult, verbose bool) {
+	ok, n := 0, 0
+	for _, o := range r.Obs {
+		n++
+		if o.Status == "unsat" || o.Status == "folded" {
+			ok++
+		}
+	}
+	status := "OK"
+	if r.GenError != "" {
+		status = "GENERR"
+	} else if ok != n {
+		status = "FAIL"
+	}
+	fmt.Printf("%-6s %s  obligations=%d discharged=%d presat=%s iter=%d %.1fs\n", status, r.Key, n, ok, r.PreSat, r.Iter, r.Seconds)
+	if r.GenError != "" {
+		fmt.Println("   ", r.GenError)
+	}
+	for _, nt := range r.Notes {
+		fmt.Println("    note:", nt)
+	}
+	if verbose && len(r.Dropped) > 0 {
+		fmt.Println("    dropped candidates:", r.Dropped)
+	}
+	for _, o := range r.Obs {
+		if o.Status != "unsat" && o.Status != "folded" || verbose {
+			fmt.Printf("    %-8s %-40s %s  [%s %.2fs] %s\n", o.Status, o.Ob.Name[strings.LastIndex(o.Ob.Name, "#")+1:], o.Ob.Pos, o.Solver, o.Seconds, o.Ob.Desc)
+		}
+	}
 }
